@@ -123,10 +123,23 @@ def seeded_patches(prop):
     return out
 
 
+def benign_patches():
+    """Behaviour-preserving refactorings written by independent sub-agents (/verif/benign/<id>/): every check must stay silent."""
+    out = []
+    root = os.path.join(VERIF, "benign")
+    if not os.path.isdir(root):
+        return out
+    for d in sorted(os.listdir(root)):
+        pp = os.path.join(root, d, "patch.diff")
+        if os.path.exists(pp):
+            out.append({"id": "benign/" + d, "props": [], "kind": "benign", "rule": None, "patch": pp, "edits": []})
+    return out
+
+
 def corpus_for(prop):
     from . import corpus
     # seeded variants: the checks named for them; benign variants: EVERY check must stay silent on every behaviour-preserving edit
-    return [v for v in corpus.VARIANTS if prop in v["props"] or v["kind"] == "benign"] + seeded_patches(prop)
+    return [v for v in corpus.VARIANTS if prop in v["props"] or v["kind"] == "benign"] + seeded_patches(prop) + benign_patches()
 
 
 def run_for_property(prop, verbose=True):
